@@ -708,3 +708,9 @@ V("c06-sigma-axis-by-shape-test", "C06", "violation", "C06.R9", edits=[(_UKFF, _
 V("c06-n-sigma-axis-asserted", "C06", "pass", edits=[(_UKFF, _MM, "        if measurement_sigma_pts.shape[1] != self.num_sigmas:\n            raise ValueError(\"one column per sigma point expected\")\n" + _MM)])
 _FC = "            # Performs covariance portion of the update step\n            self.forecast(observations)\n"
 V("c16-first-look-per-sensor", "C16", "violation", "C16.R5", edits=[(_UKFF, _FC, "            seen_sensors = set()\n            kept = []\n            for observation in observations:\n                if observation.sensor_id not in seen_sensors:\n                    seen_sensors.add(observation.sensor_id)\n                    kept.append(observation)\n            observations = kept\n" + _FC)])
+
+# ------------------------------------------------------------------------------------ shared freshness rule (C06.R10, C10.R11, C18.R7)
+_DYN = "dynamics/__init__.py"
+V("c10-two-body-dynamics-singleton", "C10", "violation", "C10.R11", edits=[(_DYN, "def dynamicsFactory(", "_TWO_BODY = {}\n\n\ndef dynamicsFactory("), (_DYN, "            dynamics = TwoBody(method=prop_cfg.integration_method)\n", "            dynamics = _TWO_BODY.setdefault(prop_cfg.integration_method, TwoBody(method=prop_cfg.integration_method))\n")])
+V("c06-filter-factory-memoised", "C06", "violation", "C06.R10", edits=[(_EST, "def sequentialFilterFactory(", "from functools import lru_cache  # noqa: E402\n\n\n@lru_cache(maxsize=None)\ndef sequentialFilterFactory(")])
+V("c18-adaptive-filter-kept-per-config", "C18", "violation", "C18.R7", edits=[(_EST, "    return _ADAPTIVE_ESTIMATION_MAP[config.name].fromConfig(\n        config,\n        nominal_filter,\n        time_step,\n    )\n", "    kept = _ADAPTIVE_ESTIMATION_MAP.get(config.name + \"#kept\")\n    if kept is None:\n        kept = _ADAPTIVE_ESTIMATION_MAP[config.name].fromConfig(\n            config,\n            nominal_filter,\n            time_step,\n        )\n        _ADAPTIVE_ESTIMATION_MAP[config.name + \"#kept\"] = kept\n    return kept\n")])
